@@ -248,17 +248,17 @@ def r12_3(ctx):
     if rle:
         for bb, t in rle.calls():
             nm = C.callee_name(t)
-            if nm != PUSH_STR:
+            if nm != PUSH_STR and not (nm.endswith("::extend") and len(t["args"]) == 2):
                 if nm in ("std::string::String::push",) or nm.endswith("::insert_str") or nm.endswith("::extend"):
                     ctx.violation([rle.name, "extra-push", nm], "replace_line_ending builds its result with %s" % nm, site=ctx.site(rle, bb))
                 continue
-            lv = C.trace(rle, t["args"][1], through_fields=True, transparent=lambda tt: C.is_transparent(tt) or T.item_preserving(C.callee_name(tt)))
-            ok = bool(lv) and all(leaf_is_call(l, LINES) or (l.kind == "param" and rle.local_name(l.data) == "line_ending") for l in lv)
-            if ok:
+            # push_str(piece) / extend(pieces): every piece is a lines() item or the line_ending parameter
+            at = piece_atoms(lib, rle, t["args"][1])
+            if at and at <= {("call", LINES), ("param", "line_ending")}:
                 ctx.ok("replace_line_ending pushes a lines() item or line_ending", site=ctx.site(rle, bb))
             else:
                 ctx.violation([rle.name, "push"], "replace_line_ending pushes text that is neither a lines() item nor the line_ending parameter: %s" % (
-                    [repr(l) for l in lv][:4]), site=ctx.site(rle, bb))
+                    sorted(map(str, at))[:4]), site=ctx.site(rle, bb))
         # what is returned is the accumulator the pieces were pushed onto (an early `return self.to_string()` is raw text)
         rl = C.trace(rle, {"l": 0, "p": []})
         if rl and all(l.kind == "call" and C.callee_name(l.data) in ("std::string::String::new", "std::string::String::with_capacity") for l in rl):
